@@ -458,7 +458,7 @@ theorem inv_closeDone (cfg : Cfg) (s s' : St) (h : Inv cfg s) (hs : step cfg s .
     simp only [Option.some.injEq] at hs
     subst hs
     refine { h with waitLive := ?_, flightO := ?_, flightN := ?_ }
-    · intro hh; exact absurd hh hw
+    · intro hh; exact absurd hh hw.1
     · intro g hg
       obtain ⟨X, hX, hDX, _⟩ := h.flightO g hg
       exact ⟨X, hX, hDX, fun hh => by simp at hh⟩
@@ -558,6 +558,8 @@ theorem closeReason_length (r : Bytes) : (closeReason r).length ≤ 123 := by
     simp only [List.length_take]
     omega
 
+theorem closeReasonWhole_length (r : Bytes) : (closeReasonWhole r).length ≤ 123 := closeReason_length _
+
 theorem closeReason_prefix (r : Bytes) : closeReason r <+: r := by
   unfold closeReason
   split
@@ -566,12 +568,12 @@ theorem closeReason_prefix (r : Bytes) : closeReason r <+: r := by
 
 /-- what gws puts on the wire, minus the code, is exactly the prepared reason -/
 theorem closeFrame_reason (res : FwdResult) :
-    closeFrame res = ((websocketError res).1, closeReason (websocketError res).2) := by
+    closeFrame res = ((websocketError res).1, closeReasonWhole (websocketError res).2) := by
   unfold closeFrame gwsClosePayload
-  have hl := closeReason_length (websocketError res).2
+  have hl := closeReasonWhole_length (websocketError res).2
   simp only [List.cons_append, List.nil_append]
   have : (UInt8.ofNat ((websocketError res).1 / 256) :: UInt8.ofNat ((websocketError res).1 % 256) ::
-      closeReason (websocketError res).2).length ≤ 125 := by simp; omega
+      closeReasonWhole (websocketError res).2).length ≤ 125 := by simp; omega
   rw [List.take_of_length_le this]
   simp
 
